@@ -3,6 +3,7 @@ package main
 // C11 — value equality, hashing, sets and records obey their algebraic laws (structural part).
 
 import (
+	"go/constant"
 	"go/token"
 	"go/types"
 	"sort"
@@ -535,7 +536,44 @@ func c11Probe(p *Prog, r *Report) {
 		}
 	})
 	r.Check(storeOK, rule, "types.NewSet:store-at-probe", p.pos(ins.Pos()), "a new member is stored at the probed slot", "NewSet does not store the member at the slot the probe ended on")
-	// lookup returns: false on absent, true on Equal
+	// lookup returns: false only on a free slot, true only on an equal member; nothing is answered from anywhere else
+	// (a shortcut in front of the probe loop that looks at the home slot alone is wrong once members collide)
+	badRet := ""
+	for _, blk := range look.Blocks {
+		ret, ok := blk.Instrs[len(blk.Instrs)-1].(*ssa.Return)
+		if !ok || len(ret.Results) != 1 {
+			continue
+		}
+		c, isC := ret.Results[0].(*ssa.Const)
+		if !isC || c.Value == nil {
+			badRet = "a computed answer at " + p.pos(ret.Pos())
+			break
+		}
+		want := constant.BoolVal(c.Value)
+		okGuard := false
+		for _, g := range guardsAt(blk) {
+			g = flattenGuard(g)
+			if want {
+				if cl, isCall := g.Cond.(*ssa.Call); isCall && g.Pol && cl.Common().Method != nil && cl.Common().Method.Name() == "Equal" {
+					okGuard = true
+				}
+			} else {
+				if ex, isEx := g.Cond.(*ssa.Extract); isEx && ex.Index == 1 && !g.Pol {
+					if lk, isLk := ex.Tuple.(*ssa.Lookup); isLk && lk.CommaOk {
+						if _, isPhi := lk.Index.(*ssa.Phi); isPhi {
+							okGuard = true
+						}
+					}
+				}
+			}
+		}
+		if !okGuard {
+			badRet = "`return " + boolStr(want, "true", "false") + "` at " + p.pos(ret.Pos()) + " that is not decided by " + boolStr(want, "the Equal test of the probed member", "the free-slot test of the probed slot")
+			break
+		}
+	}
+	r.Check(badRet == "", rule, "types.Set.Contains:answers", p.pos(look.Pos()), "lookup answers false only on a free probed slot and true only on an equal member",
+		"Set.Contains has "+badRet+": an answer taken from anywhere but the probe sequence (the home slot alone, a type test) is wrong when members of different kinds collide — `[false, 0, 1].contains(1)`")
 	// nothing else indexes a set's slot map with a foreign key
 	for _, fn := range p.Funcs {
 		if fnPkgPath(fn) != pTypes {
